@@ -245,6 +245,9 @@ pub fn run(cfg: &Cfg) -> i32 {
     gc.thread_boost = true;
     let mut sampled = 0;
     for i in 0..nprog {
+        if !cfg.mine(i) {
+            continue;
+        }
         let mut rng = Rng::derive(cfg.seed, "C10", i);
         let nflows = if i % 4 == 3 { 3 } else { 2 };
         let prefixes = ["a_", "b_", "c_"];
@@ -352,7 +355,7 @@ pub fn run(cfg: &Cfg) -> i32 {
                 match r {
                     Err(e) => {
                         let msg = e.downcast_ref::<String>().cloned().or_else(|| e.downcast_ref::<&str>().map(|s| s.to_string())).unwrap_or_default();
-                        rep.violation("flows/panic", witness("panic", json!(msg), &[]));
+                        rep.panic_caught("flows", witness("panic", json!(msg), &[]));
                     }
                     Ok(Err(e)) => rep.harness_error(&e),
                     Ok(Ok(o)) => {
